@@ -246,6 +246,8 @@ def rule_cli(ctx: Ctx, repo: Repo) -> None:
                 return R("visitor", what=K("apply"))
             if d == "MoveImportsToTypeCheckingBlockVisitor":
                 return R("visitor", what=K("move"))
+            if d.split(".")[-1].endswith(("Visitor", "Transformer", "Codemod", "Command")) and d.split(".")[-1] not in ("GatherImportsVisitor",):
+                return R("visitor", what=K(d))  # any other libcst transformer: shows up in the transform trace
             if d.endswith("store_imports_in_context"):
                 _t.append(("store_imports", tuple(st.freeze(a) for a in args)))
                 return K(None)
